@@ -320,7 +320,7 @@ class NetworkGraph(AbstractBaseIR):
             # extract delay
             d = self.edges[s, t, e]['delay']
             if type(d) is list:
-                d = [1 if d_tmp is None else d_tmp for d_tmp in d]
+                d = [0 if d_tmp is None else d_tmp for d_tmp in d]
 
             # extract and process delay distribution spread
             v = self.edges[s, t, e].pop('spread', [0])
